@@ -24,10 +24,10 @@ from gverif.common import PY, SEED, VERIF, child_env, die, ensure_repo, scratch
 from gverif.harness import Run
 from gverif.props.c04_render import MOD_FILE, SCOPES
 
-ALL_RELAX = ["package", "nested", "method", "shortcut", "mparam", "decl", "eloc"]
-ENV_KEYS = ["fam", "M", "n", "up1", "up2", "modb", "ab", "bb", "fnb", "st"]
+ALL_RELAX = ["nested", "method", "shortcut", "mparam", "decl", "eloc"]
+ENV_KEYS = ["fam", "M", "n", "up1", "up2", "modb", "ab", "bb", "fnb", "inh", "st"]
 PLAIN_FORMS = ["ann", "val", "base", "dec", "par_ann", "par_def", "ret", "api"]
-EXPECTED_BINDERS = {"fn-param", "fn-local", "own-class", "own-class-decl", "enclosing-class", "module", "submodule", "parent-package", "parent-shortcut", "none"}
+EXPECTED_BINDERS = {"fn-param", "fn-local", "own-class", "own-class-decl", "enclosing-class", "module", "submodule", "parent-shortcut", "none"}
 NWORKERS = max(2, min(14, (os.cpu_count() or 4) - 2))
 
 
@@ -50,7 +50,7 @@ def group_envs(cases: list) -> list:
     """One package configuration per distinct (M, n, bindings); its cases are the site scopes TLC enumerated for it."""
     envs: dict = {}
     for c in cases:
-        e = envs.setdefault(env_key(c), {**{k: c[k] for k in ENV_KEYS}, "cases": {}, "suffix": {}, "stm": None})
+        e = envs.setdefault(env_key(c), {**{k: c[k] for k in ENV_KEYS}, "zmod": c["zmod"], "cases": {}, "suffix": {}, "stm": None})
         e["cases"][c["S"]] = c
         e["suffix"][c["S"]] = c["suffix"] if not c["S"].endswith(".m") else []
         if c["S"] == "A.init":
